@@ -90,6 +90,7 @@ def r1_guarded_sort(w):
         # nothing sorts: reordering can never happen - the "on" half of the statement is violated
         raise AnchorMissing('no sort call on import items found in typstyle-core')
     kinds = syntax_kind_names(w)
+    flag_in_caller = _FLAG_IN_CALLER.setdefault(id(w), set())
     for (b0, bi0, t0, p, m) in sites:
         # the function with its boolean helpers expanded (a condition moved into `fn should_sort(..) -> bool` is the same condition); the duplicate
         # test - the helper that fills a set - stays a call and is judged on its own
@@ -144,6 +145,14 @@ def r1_guarded_sort(w):
                         matched = True
             if not matched:
                 others.append(atom)
+        if not have['flag']:
+            # the flag conjunct may sit in the caller (`let order = if flag && .. { Sorted } else { Source }`)
+            cv = _caller_view(w, b0, t0)
+            if cv is not None:
+                for atom2, vals2, sw2 in cv[2].guards_ext(cv[1]):
+                    if atom2 == 'field:' + FLAG and vals2 == {True}:
+                        have['flag'] = True
+                        flag_in_caller.add(cv[0].id)
         for k, label in (('flag', 'Config.reorder_import_items is true'), ('nocomment', 'every item is a non-comment node'),
                          ('nodup', 'no two items bind the same name')):
             cons = {'fn': b.short, 'sort': m, 'condition': label}
@@ -190,6 +199,33 @@ def r1_guarded_sort(w):
 
 
 _SORT_VIEW = {}
+_CALLER_VIEW = {}
+_FLAG_IN_CALLER = {}
+
+
+def _caller_view(w, b0, t0):
+    """(body, block of the sort call, view) of the unique caller of the sort's function with that function (and the boolean helper predicates)
+    expanded into it - a conjunct of the sort's guard hoisted into the caller and handed on as a parameter (bool or a two-variant enum) is then a
+    guard carried by a constructed value (guards_ext).  None when the sort's function has not exactly one call site."""
+    key = (id(w), b0.id)
+    if key not in _CALLER_VIEW:
+        import inline
+        from rules import c05
+        res = None
+        callers = [(cb, bi, t) for cb in w.fn_bodies(w.core) for bi, t in cb.calls() if resolved_id(t) == b0.id]
+        if len(callers) == 1 and callers[0][0].id != b0.id:
+            cb = callers[0][0]
+
+            def pred(f, t_, d_):
+                return f.id == b0.id or (f.crate is w.core and f.locals[0]['ty']['s'] == 'bool' and f.def_kind == 'Fn' and not c05.is_recursive(w, f)
+                                         and not _tests_comment_kinds(w, f) and 'duplication' not in f.short)
+            nb = inline.inline_body(w, cb, pred, desugar=False)
+            if b0.id in nb.inlined:
+                for bi, t in nb.calls():
+                    if (callee_path(t) or '') == (callee_path(t0) or '') and t.get('span') == t0.get('span'):
+                        res = (nb, bi, BodyView(w, nb))
+        _CALLER_VIEW[key] = res
+    return _CALLER_VIEW[key]
 
 
 def _sort_view(w, b, bi, t):
@@ -594,6 +630,11 @@ def r3_nothing_else_depends_on_flag(w):
     # boolean helpers of the sort's guard (expanded into the sort site by R1) read the flag on the sort's behalf
     for (b_, bi_, t_, _p, _m) in _sort_site(w):
         sort_fns |= set(getattr(_sort_view(w, b_, bi_, t_)[0], 'inlined', ()))
+    # a caller of the sort's function that reads the flag only to build the guard it hands on (established by R1 on the caller view)
+    for (b_, bi_, t_, _p, _m) in _sort_site(w):
+        cv = _caller_view(w, b_, t_)
+        if cv is not None and any(a == 'field:' + FLAG and vs == {True} for a, vs, _ in cv[2].guards_ext(cv[1])):
+            sort_fns.add(cv[0].id)
     for (b, u) in loads:
         cons = {'fn': b.short, 'reads': 'Config.reorder_import_items', 'how': u['how']}
         if b.id in sort_fns:
@@ -832,6 +873,23 @@ def comment_coverage_obligations(w):
                                     rv = cb.blocks[o[1][0]]['stmts'][o[1][1]]['rv']
                                     if any(x[0] == 'call' and x[1][0] == abi for x in cv.pv.peel(cv.pv.origins_operand(rv['a']))):
                                         how = 'scanned with any(is comment); the negated result is a guard of the sort'
+                # (c) scanned on the spot, the verdict folded into a value handed to the sorting function (`let order = if flag && !prefix.any(is_comment)
+                #     { Sorted } else { Source }`): judged on the caller with the sorting function expanded - the sort is then guarded, through the constructed
+                #     value, by `any(is comment) == false` over this slice
+                if how is None:
+                    cview = _caller_view(w, b, t)
+                    if cview is not None and cview[0].original.id == cb.id:
+                        nb2, sbi2, cv2 = cview
+                        for g in cv2.guards_ext(sbi2):
+                            if g[1] not in ({False}, {True}):
+                                continue
+                            for o in cv2.pv.peel(cv2.pv.origins_operand(cv2.guard_operand(g))):
+                                if o[0] != 'call':
+                                    continue
+                                at = cv2.pv.call_term(o)
+                                ap = callee_path(at) or ''
+                                if re.search(r'Iterator>?::any$', ap) and g[1] == {False} and sbi in _source_calls(cv2, at['args'][0]) and _pred_is_comment_test(w, cv2, at):
+                                    how = 'scanned with any(is comment); its negation guards the sort through the value handed to the sorting function'
                 if how:
                     out.append((True, cons, key, how, cb.loc(st['span'])))
                 else:
